@@ -18,7 +18,7 @@
                                     ata: same char and same inverse-video bit), otherwise the loaded cell is
                                     a blank on black - cells after the end of a row are not significant
      KnownC15_sauce / KnownC15_bom  the two known finding classes (see known_findings.d/C15.json) *)
-From Coq Require Import NArith List Arith.
+From Coq Require Import NArith Bool List Arith.
 From IE Require Import Lib.Tbl Gen.Codepage Gen.TextFmt Model.Attr Model.TextBuf Model.TextWriters Model.TextParsers
                        Proofs.TextBufProofs Proofs.TextSync Proofs.TextRoundtrip Proofs.TextFormats Proofs.TextAvatar Proofs.TextAll.
 Import ListNotations.
@@ -99,6 +99,12 @@ Theorem avatar_row_sync : forall w, (w <= 255)%nat ->
   row_sync w avt_ps (bool * TextAttribute) avt_astep (avt_bstep w) (avt_emit_row w) avt_R
            (fun r => Forall avt_dom (row_cells w r)) colour_rel.
 Proof. exact avt_row_sync_law. Qed.
+
+(* the scanner's fuel (the width) is never the reason the model's scan stops: it stops where the Rust loop does *)
+Theorem avatar_scan_fuel_suffices : forall w r fuel x rc, (w - x <= fuel)%nat ->
+  ((fst (avt_scan fuel w r x rc) + AVT_LOOKAHEAD <? w)%nat &&
+   cell_eqb (row_get r (fst (avt_scan fuel w r x rc))) (row_get r (S (fst (avt_scan fuel w r x rc))))) = false.
+Proof. exact avt_scan_stops. Qed.
 
 (* ---- non-vacuity: a picture with colour changes, a run, an empty row, a full-width row, an insignificant tail ---- *)
 Definition cells (s : list N) (fg bg : N) : list cell := map (fun ch => mkCell ch (mkAttr 0 fg bg 0)) s.
